@@ -65,6 +65,13 @@ def run(e: Engine, rep: Report):
              'a universal-newline splitter (those also cut at a bare CR, '
              'so `x<CR>.<CRLF>` inside a body would end the message)')
     g10(e, rep, 'G10')
+    rep.rule('G11', 'a line recv_line hands out has been taken off '
+             'recv_buffer: on every path to the return the buffer is '
+             're-assigned a slice of itself after the match (everybody '
+             'else - the DATA reader, STARTTLS - reads recv_buffer as what '
+             'has NOT been consumed yet; a consumed prefix kept behind an '
+             'offset is read again as message content)')
+    g11(e, rep, 'G11')
     rep.floor('G1', 6, 'buffer / socket access sites')
 
 
@@ -1038,3 +1045,57 @@ def g10(e: Engine, rep: Report, rule: str):
                     'cannot see how the data reader cuts the stream into '
                     'lines (no module pattern used with finditer / '
                     'findall / split)', loc=None)
+
+
+# --------------------------------------------------------------------- G11
+def g11(e: Engine, rep: Report, rule: str = 'G11'):
+    ctx = e.method_ctx(IOC, 'recv_line')
+    g = e.build(ctx, raises=lambda b, n, r: set(),
+                inline=e.inline_same_self(deny=['buffered_recv',
+                                                'raw_recv']), max_depth=3)
+    where = ctx.func.qname
+    rep.functions.add(where)
+    rets = [n for n in g.of_kind('stmt') if isinstance(n.ast, ast.Return)
+            and n.frame is g.entry.frame and n.ast.value is not None and
+            not (isinstance(n.ast.value, ast.Constant) and
+                 n.ast.value.value is None)]
+    if not rets:
+        rep.unknown(rule, where, 'lines handed out are consumed',
+                    'recv_line returns no value', loc=ctx.func.loc())
+        return
+    nul = common.Nullness(g, e)
+
+    def step(n, label, st0):
+        st, ns = st0
+        if isinstance(label, tuple):
+            return st0
+        ns = nul.step(n, label, ns)
+        if ns == 'infeasible':
+            return None
+        if n.kind == 'stmt' and isinstance(n.ast, ast.Assign):
+            v = n.ast.value
+            if isinstance(v, ast.Call) and isinstance(v.func, ast.Attribute) \
+                    and v.func.attr in ('match', 'search', 'find', 'index'):
+                st = False                 # a new candidate line
+            if any(path_of(t, n.frame) == 'self.recv_buffer'
+                   for t in n.ast.targets) and isinstance(v, ast.Subscript) \
+                    and isinstance(v.slice, ast.Slice) and \
+                    v.slice.lower is not None:
+                st = True
+        return (st, ns)
+    for r in rets:
+        rep.evaluations += 1
+        w = dataflow.typestate_witness(
+            g, (False, frozenset()), step,
+            lambda n, st, r=r: n is r and not st[0])
+        rep.check(w is None, rule, where,
+                  '`%s`: the line was taken off recv_buffer' % ' '.join(
+                      ast.unparse(r.ast).split())[:40],
+                  'recv_line returns a line without having removed it from '
+                  'recv_buffer (the consumed prefix is only remembered by '
+                  'an offset): DataReader.from_recv_buffer and the STARTTLS '
+                  'discard take recv_buffer for the unconsumed input, so '
+                  'the DATA line itself is read back as message content and '
+                  'bytes after the end of data are skipped', loc=r.loc(),
+                  reason='recv_buffer = <slice past the match> on every path',
+                  witness=dataflow.render_path(w, 12) if w else None)
